@@ -338,4 +338,6 @@ def short(scn):
     t = scn['tree']
     return ('P:' if t['k'] == 'pure' else 'S:') + r(t) + \
         ('' if scn.get('thash', 'asc') == 'asc' else ' thash=%s' % scn['thash']) \
-        + ('' if not scn.get('pre') else ' pre=%s' % (scn['pre'],))
+        + ('' if not scn.get('pre') else ' pre=%s' % (scn['pre'],)) \
+        + ('' if not scn.get('late') else ' late=%s' % (scn['late'],)) \
+        + ('' if not scn.get('peek') else ' peek')
